@@ -30,12 +30,12 @@ DOCUMENTED = {"ParserError", "ConverterError", "XmlContextError", "LEAK:XmlHandl
 def gen_tree_faults(rng, tier):
     """valid documents and EVERY fault kind on each of them (model: bind.parse, real: NodeParser
     driven by EventsHandler)"""
-    n_uni = n_cases(tier, 20, 500)
-    docs = itertools.chain(documents(rng, tier, n_uni, 2, mutate=False), focused_documents(rng, n_cases(tier, 15, 300), 2))
+    n_uni = n_cases(tier, 20, 120)
+    docs = itertools.chain(documents(rng, tier, n_uni, 2, mutate=False), focused_documents(rng, n_cases(tier, 15, 100), 2))
     for u, ctx, desc, tree, kind in docs:
         cfgs = [rng.choice(CONFIGS) for _ in range(3)]
         yield {"ctx": ctx, "tree": tree, "clazz": "Root", "config": cfgs[0], "desc": desc, "_uni": u.modname, "_kind": "valid"}
-        for k, t2 in F.tree_fault_stream(rng, tree, 1 if tier == "quick" else 3):
+        for k, t2 in F.tree_fault_stream(rng, tree, 1 if tier == "quick" else 2):
             yield {"ctx": ctx, "tree": t2, "clazz": "Root", "config": rng.choice(cfgs), "desc": desc, "_uni": u.modname, "_kind": k}
         # the wrong target class for a valid document
         other = rng.choice([c["name"] for c in desc["classes"]])
@@ -94,7 +94,7 @@ def gen_doc_native(rng, tier):
     """single-point byte faults of real serializations.  The tokenizer outcome `tok` is decided
     without xsdata (libxml2 strict + the pyexpat unknown-encoding rule); the model maps it to the
     outcome of XmlParser(handler=XmlEventHandler).from_bytes"""
-    n_uni = n_cases(tier, 14, 300)
+    n_uni = n_cases(tier, 14, 60)
     for u, ctx, desc, tree, kind in documents(rng, tier, n_uni, 1, mutate=False):
         try:
             obj = G.gen_instance(rng, u, "Root")
@@ -134,7 +134,7 @@ def cmp_doc(mo, io, a):
 def gen_doc_lxml(rng, tier):
     """same faults through LxmlEventHandler (recover=True): `tok` is libxml2's recovered tree, the
     requirement is only that no undocumented exception escapes"""
-    n_uni = n_cases(tier, 8, 150)
+    n_uni = n_cases(tier, 8, 30)
     for u, ctx, desc, tree, kind in documents(rng, tier, n_uni, 1, mutate=False):
         try:
             obj = G.gen_instance(rng, u, "Root")
@@ -254,7 +254,7 @@ def _plain(s):
 def gen_dict(rng, tier):
     """valid JSON serializations and their faults; value-level faults go to DictDecoder.decode,
     byte-level faults to JsonParser.from_bytes (whose json.load outcome is decided with the stdlib)"""
-    n_uni = n_cases(tier, 16, 300)
+    n_uni = n_cases(tier, 16, 60)
     for _ in range(n_uni):
         u, desc, ctx = new_universe(rng, FEATURES_JSON)
         for _ in range(2):
@@ -469,17 +469,38 @@ JSON_FINDING_SITES = [
 ]
 
 
+def _model_outcome(a):
+    """the Lean model's outcome for a dict.decode case (None when the driver cannot be asked)"""
+    import framework
+
+    try:
+        return framework.Driver().run([{"op": "dict.decode", "args": {k: a[k] for k in ("ctx", "clazz", "config", "loaded", "list_of", "fuel")}}])[0]
+    except Exception:  # noqa: BLE001
+        return None
+
+
 def covered_json(a, msg):
-    for exc, site, text, fid in JSON_FINDING_SITES:
-        if msg.startswith(exc.replace("LEAK:", "LEAK:") + " escaped at ") and site in msg.split(" escaped at ", 1)[1].split(": ", 1)[0] and text in msg:
-            return fid
-    return None
+    """a failing input belongs to a listed finding when the exception type, the raising site and
+    the message are the finding's — and, for inputs inside the fragment of the decoder model
+    (which reproduces every listed defect and is proved to have no others), when the model
+    places that very leak on this input.  A leak of a listed kind at a listed site on an input
+    where the model expects none is a new defect."""
+    fid = None
+    for exc, site, text, f in JSON_FINDING_SITES:
+        if msg.startswith(exc + " escaped at ") and site in msg.split(" escaped at ", 1)[1].split(": ", 1)[0] and text in msg:
+            fid = f
+            break
+    if fid and "loaded" in a and "ctx" in a:
+        mo = _model_outcome(a)
+        if mo is not None and not unsupported(mo) and "fail" not in mo and mo.get("err") != msg.split(" ", 1)[0]:
+            return None
+    return fid
 
 
 def gen_oracle_json(rng, tier):
     """valid JSON serializations, value-level faults (DictDecoder.decode) and byte-level faults
     (JsonParser.from_bytes)"""
-    n_uni = n_cases(tier, 20, 300)
+    n_uni = n_cases(tier, 20, 60)
     for _ in range(n_uni):
         u, desc, ctx = new_universe(rng, None)  # every field kind, also those the decoder model leaves out
         for _ in range(2):
@@ -503,7 +524,7 @@ ORACLES = [
     Oracle("c15.xml_bytes", gen_oracle_xml, check_xml_bytes, covered=covered_xml,
            from_ops=("fault.document", "fault.document.lxml"), adapt=adapt_xml),
     Oracle("c15.json", gen_oracle_json, check_json, covered=covered_json, from_ops=("dict.decode",),
-           adapt=lambda op, a: {k: a[k] for k in ("hex", "json", "clazz", "config", "list_of", "desc", "_uni", "_kind") if k in a}),
+           adapt=lambda op, a: {k: a[k] for k in ("hex", "json", "clazz", "config", "list_of", "desc", "_uni", "_kind", "ctx", "loaded", "fuel") if k in a}),
 ]
 
 
